@@ -433,6 +433,133 @@ theorem react_interleaving_invariant {F : Facts} (hF : genFacts = some F) (cfg :
       | cons hr _ ih => exact .cons ⟨full_reinterleaved hr, goes_reinterleaved _ cfg mode hr⟩ ih
     rw [rounds_rel cfg _ hs l orig]
 
+/-! ## calls to tools that do not exist (`ToolsConfig.UnknownToolsHandler`) -/
+
+/-- Source fact tie: `genToolCallTasks` builds the task of an unknown call from values of that
+    call (`newUnknownToolTask(toolCall.Function.Name, …)`, `toolCall` declared inside the loop body,
+    the closure calling the handler with its own `name` parameter); without a handler an unknown
+    name fails the node before any task runs; the agent hands its whole `ToolsConfig` (handler
+    included) to `compose.NewToolNode`. -/
+theorem tools_facts_match :
+    FactsC18.unknownToolTaskGetsOwnName = true ∧
+    FactsC18.unknownToolWithoutHandlerFails = true ∧
+    FactsC18.toolsConfigReachesNode = true := by decide
+
+/-- the tool message for a call of a registered tool is that tool's output on the call's arguments -/
+theorem known_tool_answer (cfg : Config) (c : ToolCall) (m : Msg) (f : String → Except Nat String)
+    (hf : cfg.tools c.name = some f) :
+    AnswerOf cfg c m ↔ ∃ out, f c.args = .ok out ∧ m = toolMessage out c.id := by
+  have ht : cfg.toolFor c.name = some f := by simp [Config.toolFor, hf]
+  constructor
+  · rintro ⟨g, out, hg, ho, hm⟩
+    rw [ht] at hg; cases hg
+    exact ⟨out, ho, hm⟩
+  · rintro ⟨out, ho, hm⟩
+    exact ⟨f, out, ht, ho, hm⟩
+
+/-- **unknown_tool_answered_under_its_own_name.** With an unknown-tools handler `h` configured, the
+    tool message that answers a call `c` to a name that is not a registered tool — wherever `c`
+    stands among the calls of the assistant message, whatever the other calls are — is
+    `h c.name c.args` under `c`'s id: the handler is asked about the name of THAT call. Together
+    with `react_history` / `transcript_cons` (one `AnswerOf` per call, in call order) this is the
+    clause "the k-th model call sees … the tool results for its calls" for hallucinated tools. -/
+theorem unknown_tool_answered_under_its_own_name (cfg : Config)
+    (h : String → String → Except Nat String) (c : ToolCall) (m : Msg)
+    (hu : cfg.unknown = some h) (hc : cfg.tools c.name = none) :
+    AnswerOf cfg c m ↔ ∃ out, h c.name c.args = .ok out ∧ m = toolMessage out c.id := by
+  have ht : cfg.toolFor c.name = some (h c.name) := by simp [Config.toolFor, hc, hu]
+  constructor
+  · rintro ⟨g, out, hg, ho, hm⟩
+    rw [ht] at hg; cases hg
+    exact ⟨out, ho, hm⟩
+  · rintro ⟨out, ho, hm⟩
+    exact ⟨h c.name, out, ht, ho, hm⟩
+
+/-- **unknown_tool_without_handler_fails.** Without a handler, an assistant message with a call to
+    a name that is not a registered tool — at any position — fails the tools node before any tool
+    body is started (so the run ends with that error and no later model call happens). -/
+theorem unknown_tool_without_handler_fails (cfg : Config) (m : Msg) (c : ToolCall)
+    (hu : cfg.unknown = none) (hm : c ∈ m.calls) (hc : cfg.tools c.name = none) :
+    runTools cfg m = ([], .error .toolNotFound) := by
+  have hres : ∀ calls : List ToolCall, c ∈ calls → resolveCalls cfg calls = none := by
+    intro calls
+    induction calls with
+    | nil => intro h; cases h
+    | cons d ds ih =>
+      intro hmem
+      simp only [resolveCalls]
+      rcases List.mem_cons.mp hmem with rfl | hmem
+      · have : cfg.toolFor c.name = none := by simp [Config.toolFor, hc, hu]
+        rw [this]
+      · rw [ih hmem]
+        split <;> simp_all
+  unfold runTools
+  have hne : m.calls.isEmpty = false := by
+    cases hcs : m.calls with
+    | nil => rw [hcs] at hm; cases hm
+    | cons _ _ => rfl
+  simp [hne, hres m.calls hm]
+
+/-- **unknown_tool_handler_takes_every_call.** With a handler configured the tools node never
+    fails for an unknown name: every call of the message is started (registered tools and
+    handler alike), and the node's error, if any, is a failure of one of them. -/
+theorem unknown_tool_handler_takes_every_call (cfg : Config)
+    (h : String → String → Except Nat String) (m : Msg) (hu : cfg.unknown = some h)
+    (hne : m.calls ≠ []) :
+    (runTools cfg m).1 = m.calls ∧ (runTools cfg m).2 ≠ .error .toolNotFound := by
+  have hres : ∀ calls : List ToolCall, ∃ tasks, resolveCalls cfg calls = some tasks := by
+    intro calls
+    induction calls with
+    | nil => exact ⟨[], rfl⟩
+    | cons d ds ih =>
+      obtain ⟨rest, hrest⟩ := ih
+      have : ∃ f, cfg.toolFor d.name = some f := by
+        unfold Config.toolFor
+        cases cfg.tools d.name with
+        | some f => exact ⟨f, rfl⟩
+        | none => exact ⟨h d.name, by simp [hu]⟩
+      obtain ⟨f, hf⟩ := this
+      exact ⟨(d, f) :: rest, by simp [resolveCalls, hf, hrest]⟩
+  have hcol : ∀ tasks : List (ToolCall × (String → Except Nat String)),
+      collectResults tasks ≠ .error .toolNotFound := by
+    intro tasks
+    induction tasks with
+    | nil => simp [collectResults]
+    | cons t ts ih =>
+      obtain ⟨d, f⟩ := t
+      simp only [collectResults]
+      split
+      · simp
+      · split
+        · rename_i e he; intro heq; cases heq; exact ih he
+        · simp
+  obtain ⟨tasks, ht⟩ := hres m.calls
+  have hemp : m.calls.isEmpty = false := by
+    cases hcs : m.calls with
+    | nil => exact absurd hcs hne
+    | cons _ _ => rfl
+  unfold runTools
+  simp only [hemp, ht]
+  exact ⟨rfl, hcol tasks⟩
+
+/-- the misspelt call `tt` in front of a call of the real tool `t`: the second model call is shown
+    "no tool tt(a)" for `c1` and `t`'s answer for `c2` -/
+example : (run Expected.C18.facts (wCfgU [] 0) .stream wOrig [wMisspelt, wDone]).seen
+    = [wOrig, wOrig ++ [⟨.assistant, "", [⟨"c1", "tt", "a", none⟩, ⟨"c2", "t", "b", none⟩], ""⟩,
+                        ⟨.tool, "no tool tt(a)", [], "c1"⟩, ⟨.tool, "t(b)", [], "c2"⟩]] := by decide
+
+/-- without a handler the same script fails in the tools node, nothing is started -/
+example : run Expected.C18.facts (wCfg [] 0) .generate wOrig [wMisspelt, wDone]
+    = { seen := [wOrig], evs := [.chat, .tools []], result := .error .toolNotFound } := by decide
+
+/-- the fact matters: a closure reading a loop-shared variable (`resolveCallsSharedVar`) would
+    answer the misspelt call under the name of the last call of the message -/
+example : ((resolveCalls (wCfgU [] 0) wMisspelt.full.calls).map (·.map (fun t => t.2 t.1.args)))
+      = some [.ok "no tool tt(a)", .ok "t(b)"] ∧
+    ((resolveCallsSharedVar (wCfgU [] 0) wMisspelt.full.calls wMisspelt.full.calls).map
+        (·.map (fun t => t.2 t.1.args)))
+      = some [.ok "no tool t(a)", .ok "t(b)"] := by decide
+
 /-! ## several runs started from one message slice of the caller, overlapping in time -/
 
 /-- Source fact tie for the memory of the history: in package react every store into
